@@ -1,6 +1,6 @@
 (* C13 -- The three HTML policies differ only at the HTML elements (partial).  Property theorems only. *)
 From Rimu Require Import Base Regex RegexParse Str Types Tables Guards State Inline Block
-  Frame FrameBlock FrameInst OptionsLemmas MiscLemmas Plain PlainDoc HtmlTag ParaDoc ListDoc.
+  Frame FrameBlock FrameInst OptionsLemmas MiscLemmas Plain PlainDoc HtmlTag ParaDoc TagDoc.
 
 (* the policy is a function of the two low bits of the safe mode only *)
 Theorem C13_policy_bits : forall m,
